@@ -15,7 +15,7 @@ from ..ai.state import InstObj, ListObj
 from ..ai.values import Bool, Num, Ptr, Seq, Union, Val, ivar, short
 from ..frontend import Program, norm_text
 from ..report import Instance, Report
-from .harness import parallel_map, run_op, where
+from .harness import parallel_map, run_op, valeq_instances, where
 
 IRREGULAR = {"cond-append", "multi-append", "reordered", "reversed", "insert", "pop", "remove", "tail-append", "weak-append", "break", "building", "unmodelled", "partial", "index-assigned"}
 
@@ -138,6 +138,13 @@ def _job(job) -> List[Dict[str, Any]]:
     else:
         inst("R2.1", "HOLDS", f"result[k][p] is the posterior of the player passed at teams[k][p] ({case})", "",
              {"style": sorted(a["styles"]), "sorts": [(ev.data["pid"], where(ev)[1], str(ev.data["info"]["inverse_of"])) for ev in sorts]})
+    # ---------------------------------------------------------------- R2.8 players and teams are positions, not values
+    ve = valeq_instances(oc, "R2.8", "so the posterior of one player/team can be handed to another one with equal ratings", kinds=("valeq-lookup",))
+    for d in ve:
+        d["detail"] = dict(d["detail"], case=case)
+    out.extend(ve)
+    if not ve:
+        inst("R2.8", "HOLDS", f"no position is looked up by the value equality of ratings or teams ({case})")
     # ---------------------------------------------------------------- R2.4 ids and names
     wrote_id = False
     for ev in I.events:
